@@ -1594,9 +1594,16 @@ func vgPickDistinct(g *vgRng, n, universe int) []int {
 }
 
 // options derived from the previous ones: keep/rename/reorder/add/remove, then maybe break them
+// vgBig: the history under generation is a large one (many endpoints / MultiEndpoints / long lists)
+var vgBig bool
+
 func vgGenOpts(g *vgRng, prev *vgOpts, nEP int) *vgOpts {
 	o := &vgOpts{}
 	used := map[int]bool{}
+	nameN, maxME, maxEP := 5, 3, 3
+	if vgBig {
+		nameN, maxME, maxEP = 16, 12, 10
+	}
 	if prev != nil {
 		for _, m := range prev.mes {
 			if m.nilopt || len(m.eps) == 0 || !g.pct(70) || used[m.name] {
@@ -1620,9 +1627,9 @@ func vgGenOpts(g *vgRng, prev *vgOpts, nEP int) *vgOpts {
 					nm.eps = append(nm.eps[:k], nm.eps[k+1:]...)
 				}
 			case 3: // rename: same endpoints under another name
-				nm.name = g.intn(5)
+				nm.name = g.intn(nameN)
 			case 4: // replace the list
-				nm.eps = vgPickDistinct(g, 1+g.intn(3), nEP)
+				nm.eps = vgPickDistinct(g, 1+g.intn(maxEP), nEP)
 			}
 			if used[nm.name] {
 				continue
@@ -1631,14 +1638,14 @@ func vgGenOpts(g *vgRng, prev *vgOpts, nEP int) *vgOpts {
 			o.mes = append(o.mes, nm)
 		}
 	}
-	want := 1 + g.intn(3)
+	want := 1 + g.intn(maxME)
 	for len(o.mes) < want {
-		n := g.intn(5)
+		n := g.intn(nameN)
 		if used[n] {
 			continue
 		}
 		used[n] = true
-		o.mes = append(o.mes, vgME{name: n, eps: vgPickDistinct(g, 1+g.intn(3), nEP)})
+		o.mes = append(o.mes, vgME{name: n, eps: vgPickDistinct(g, 1+g.intn(maxEP), nEP)})
 	}
 	// shuffle the (textual) order of the map entries
 	for i := len(o.mes) - 1; i > 0; i-- {
@@ -1716,6 +1723,11 @@ func vgValid(o *vgOpts) bool {
 func vgGenHistory(g *vgRng, maxOps int, livePct int) []vgOp {
 	nEP := 3 + g.intn(4)
 	live := g.pct(livePct)
+	vgBig = !live && g.intn(30) == 0
+	defer func() { vgBig = false }()
+	if vgBig {
+		nEP = 12 + g.intn(20)
+	}
 	var h []vgOp
 	first := vgGenOpts(g, nil, nEP)
 	h = append(h, vgOp{kind: "H", opts: first})
